@@ -1515,8 +1515,12 @@ int _vnadata_load_touchstone(vnadata_internal_t *vdip, FILE *fp,
     /*
      * Set up the output matrix.
      */
+    /*
+     * The frequencies are added as their data lines are read: the count
+     * in the file is not a safe size for an allocation.
+     */
     if (vnadata_init(vdp, tps.tps_parameter_type, tps.tps_ports,
-		tps.tps_ports, number_of_frequencies) == -1) {
+		tps.tps_ports, /*frequencies*/0) == -1) {
 	goto out;		/* vnadata_init has reported the error */
     }
 
@@ -1558,8 +1562,10 @@ int _vnadata_load_touchstone(vnadata_internal_t *vdip, FILE *fp,
 		    tps.tps_filename, tps.tps_line);
 	    goto out;
 	}
-	(void)vnadata_set_frequency(vdp, findex,
-		tps.tps_frequency_multiplier * tps.u.tps_double);
+	if (vnadata_add_frequency(vdp,
+		    tps.tps_frequency_multiplier * tps.u.tps_double) == -1) {
+	    goto out;		/* vnadata_add_frequency has reported */
+	}
 	if (next_token(&tps, F_NONE) == -1) {
 	    goto out;
 	}
